@@ -404,8 +404,10 @@ pub fn serde_enum(name: &str, variants: &[&str]) -> String {
 pub fn leaf_defs() -> String {
     let mut s = String::new();
     s.push_str(&serde_struct("Item", &[("id".into(), "i32".into())]));
-    s.push_str(&serde_enum("Kind", &["Alpha", "Beta"]));
-    s.push_str(&serde_struct("Fail", &[("msg".into(), "String".into())]));
+    // Kind's derives are split over two attributes with the serde ones second, Fail's serde derive
+    // is spelled with a path and sits behind another attribute
+    s.push_str(&serde_enum("Kind", &["Alpha", "Beta"]).replace("#[derive(Debug, Clone, Serialize, Deserialize)]", "#[derive(Debug, Clone, PartialEq)]\n#[allow(dead_code)]\n#[derive(Serialize, Deserialize)]"));
+    s.push_str(&serde_struct("Fail", &[("msg".into(), "String".into())]).replace("#[derive(Debug, Clone, Serialize, Deserialize)]", "#[derive(Debug)]\n#[derive(Clone, serde::Serialize, serde::Deserialize)]"));
     s
 }
 
